@@ -10,7 +10,7 @@ from .analysis_scope import IDX, RAW, analyse_function
 from .core import Result, finding, norm_construct
 from .model import Repo
 from .poly import A, C, Frac, ONE, ZERO, mk_fn
-from .structure import call_name, call_target, calls_in, canon_ifexp, is_subsequence, path_calls, stmt_paths
+from .structure import arg_of, call_name, call_target, calls_in, canon_ifexp, is_subsequence, path_calls, stmt_paths
 
 RULE = "R-CONTRACT"
 
@@ -108,8 +108,15 @@ def check_wrappers(prop: str, res: Result, repo: Repo):
     else:
         res.fail(RULE, finding(prop, RULE, pe, pe.node, "prev_exists must be `prev_reading(name) is not None`", construct="prev_exists"))
     pr = repo.method("hexital.core.indicator", "Indicator", "prev_reading")
-    t = ast.unparse(pr.node)
-    if "self._active_index == 0" in t and "index=self._active_index - 1" in t.replace(" ", "").replace("index=self._active_index-1", "index=self._active_index - 1"):
+    zero_guard = False
+    for n in ast.walk(pr.node):
+        if isinstance(n, ast.If) and any(isinstance(x, ast.Return) and (x.value is None or (isinstance(x.value, ast.Constant) and x.value.value is None)) for x in n.body):
+            for c in ast.walk(n.test):
+                if isinstance(c, ast.Compare) and len(c.ops) == 1 and isinstance(c.ops[0], ast.Eq) and {ast.unparse(c.left), ast.unparse(c.comparators[0])} == {"self._active_index", "0"}:
+                    zero_guard = True
+    rd = repo.method("hexital.core.indicator", "Indicator", "reading")
+    offs = [ast.unparse(arg_of(c, rd, 1)).replace(" ", "") for c in calls_in(pr.node) if call_target(c) == "self.reading" and arg_of(c, rd, 1) is not None]
+    if zero_guard and offs and all(o in ("self._active_index-1", "-1+self._active_index") for o in offs):
         res.ok(RULE, {"wrapper": "Indicator.prev_reading", "is": "None at index 0, else the reading at _active_index - 1"}, nontrivial="wrapper:prev_reading")
     else:
         res.fail(RULE, finding(prop, RULE, pr, pr.node, "prev_reading must return None at index 0 and read _active_index - 1 otherwise", construct="prev_reading: guard/offset"))
@@ -122,7 +129,8 @@ def check_set_reading(prop: str, res: Result, repo: Repo):
         seq = []
         for c in calls:
             if call_name(c) == "_calculate_sub_indicators":
-                seq.append("subs:" + (ast.unparse(c.args[0]) if c.args else "?"))
+                a0 = arg_of(c, repo.method("hexital.core.indicator", "Indicator", "_calculate_sub_indicators"), 0)
+                seq.append("subs:" + (ast.unparse(a0) if a0 is not None else "?"))
             elif call_name(c) == "_set_reading":
                 seq.append("write")
         if seq == ["subs:True", "write", "subs:False"]:
@@ -130,7 +138,9 @@ def check_set_reading(prop: str, res: Result, repo: Repo):
         else:
             res.fail(RULE, finding(prop, RULE, sr, sr.node, "Managed.set_reading must run prior sub-indicators, then store the reading, then run the post sub-indicators that read it", construct="set_reading: " + " -> ".join(seq)))
     w = [c for c in calls_in(sr.node) if call_name(c) == "_set_reading"]
-    if w and [ast.unparse(a) for a in w[0].args] == ["reading", "self._active_index"]:
+    sr_params = [a.arg for a in sr.node.args.args if a.arg != "self"]
+    st0 = repo.method("hexital.core.indicator", "Indicator", "_set_reading")
+    if w and sr_params and [ast.unparse(arg_of(w[0], st0, k)) if arg_of(w[0], st0, k) is not None else "?" for k in (0, 1)] == [sr_params[0], "self._active_index"]:
         res.ok(RULE, {"helper": "Managed.set_reading", "writes": "at the managed cursor (_active_index)"})
     else:
         res.fail(RULE, finding(prop, RULE, sr, sr.node, "Managed.set_reading must store at self._active_index", construct="set_reading: target index"))
@@ -143,7 +153,9 @@ def check_set_reading(prop: str, res: Result, repo: Repo):
             tst, then, other = canon_if(n)
             if ast.unparse(tst) == "self._sub_indicator":
                 tt, ot = " ; ".join(ast.unparse(x) for x in then), " ; ".join(ast.unparse(x) for x in other)
-                ok_sr = "self.candles[index].sub_indicators[self.name] = reading" in tt and "self.candles[index].indicators[self.name] = reading" in ot and "sub_indicators" not in ot
+                ps = [a.arg for a in st.node.args.args if a.arg != "self"]
+                rd_p, ix_p = (ps + ["reading", "index"])[:2]
+                ok_sr = f"self.candles[{ix_p}].sub_indicators[self.name] = {rd_p}" in tt and f"self.candles[{ix_p}].indicators[self.name] = {rd_p}" in ot and "sub_indicators" not in ot
     if ok_sr:
         res.ok(RULE, {"helper": "Indicator._set_reading", "writes": "helper readings to sub_indicators, top-level readings to indicators, keyed by self.name"}, nontrivial="_set_reading")
     else:
